@@ -1203,6 +1203,26 @@ func (w *world) compare(h int64, T time.Time, curBefore uint64) {
 	ctx := w.ch.Ctx()
 	bk := w.ch.App.BandtssKeeper
 	m := w.m
+	// scenario statistics: the incoming group is registered (WAITING_EXECUTION) / has become current while one of its
+	// accounts is a deactivated member of the (previous) current group
+	if t := m.tr; t != nil && t.status == stWaitingExec && t.current != 0 {
+		if gi := m.groups[t.incoming]; gi != nil {
+			for _, a := range gi.members {
+				if v, known := w.active[mkey(t.current, a)]; known && !v {
+					w.class("incoming-registered-while-account-inactive-in-current-group")
+				}
+			}
+		}
+	}
+	if m.executed && curBefore != 0 {
+		if gi := m.groups[m.cur]; gi != nil {
+			for _, a := range gi.members {
+				if v, known := w.active[mkey(curBefore, a)]; known && !v {
+					w.class("executed-while-account-inactive-in-previous-group")
+				}
+			}
+		}
+	}
 	if m.cur != 0 && (w.lastCur != m.cur) {
 		w.wasCurrent[m.cur]++ // number of times the group became the current group
 		w.lastCur = m.cur
@@ -1296,6 +1316,12 @@ func (w *world) compare(h int64, T time.Time, curBefore uint64) {
 			if w.wasCurrent[uint64(mem.GroupID)] > 1 || (w.wasCurrent[uint64(mem.GroupID)] == 1 && uint64(mem.GroupID) != m.cur) {
 				where += "-group-that-was-current-before"
 			}
+			if !strings.Contains(where, "was-current-before") {
+				w.v.Failf("C18/activity-flags-disagree", "height %d: %s is a member of the %s group %d with IsActive=%v in bandtss but IsActive=%v in the x/tss member record of the same group (%s)", h, mem.Address, where, mem.GroupID, mem.IsActive, tm.IsActive, m.describe())
+				return
+			}
+			// Not asserted: on the unchanged tree a group that returns as current/incoming group (forced transition back to
+			// an earlier current group) keeps the x/tss flags of its previous term while bandtss registers everybody active.
 			w.v.Count("activity_flags_disagree@"+where, 1)
 			w.class("activity-flags-disagree@" + where)
 			if os.Getenv("C18_DEBUG") != "" {
